@@ -34,10 +34,14 @@ DATATYPES = {
 for _n in range(8):
     DATATYPES["zcsim.simdt.conv_%d" % _n] = (["v1", "plain text", "Z"], "!bad")
     DATATYPES["zcsim.simdt.Conv_%d" % _n] = (["v1", "plain text", "Z"], "!bad")
+    # the same callables under the dotted name of a module of their own
+    # (served by the simulated import system, see world.SimPkgLoader)
+    DATATYPES["zcsim_pdt.conv_%d" % _n] = (["v1", "plain text", "Z"], "!bad")
 del _n
 
 REJECTING = [d for d, (_v, bad) in DATATYPES.items()
-             if bad is not None and ".Conv_" not in d]
+             if bad is not None and ".Conv_" not in d
+             and not d.startswith("zcsim_pdt.")]
 STD_REJECTING = [d for d in REJECTING if not d.startswith("zcsim.")]
 
 KEYTYPES = ["basic-key", "basic-key", "basic-key", "identifier",
@@ -179,7 +183,8 @@ def gen_items(rng, c, o, ir, concrete, abstracts, top=False, allow_wild=True,
               inherited=(), hyphen_ok=True):
     items = []
     nkeys = rng.randint(0 if not top else 1, 4)
-    dts = [d for d in DATATYPES if ".Conv_" not in d]
+    dts = [d for d in DATATYPES if ".Conv_" not in d
+           and not d.startswith("zcsim_pdt.")]
     if o["std_only"] or not o["callbacks"]:
         dts = [d for d in dts if not d.startswith("zcsim.")]
     have_wild = not allow_wild
